@@ -20,7 +20,7 @@ from . import c12_lp as LP
 
 ID = "C12"
 ORACLE = "Oracle.C12"
-PROPS = ["Props/C12.v", "Props/C12relax.v"]
+PROPS = ["Props/C12.v", "Props/C12relax.v", "Props/C12gen.v"]
 LEVEL = "proof"
 SHARD = 60
 MAX_DISCARD = 0.03
